@@ -175,3 +175,29 @@ func (p *Prog) lineText(pos token.Pos) string {
 	}
 	return ""
 }
+
+// lineOrdinal says which line this is (1-based) among the source lines of fn
+// that contain text, counted from the start of the function; 0 if none.
+func (p *Prog) lineOrdinal(fn *ssa.Function, pos token.Pos, text string) int {
+	for fn.Parent() != nil && fn.Syntax() == nil {
+		fn = fn.Parent()
+	}
+	syn := fn.Syntax()
+	if syn == nil || !pos.IsValid() {
+		return 0
+	}
+	ps := p.Fset.Position(pos)
+	start := p.Fset.Position(syn.Pos())
+	data, err := os.ReadFile(ps.Filename)
+	if err != nil || start.Filename != ps.Filename {
+		return 0
+	}
+	lines := strings.Split(string(data), "\n")
+	n := 0
+	for l := start.Line; l <= ps.Line && l-1 < len(lines); l++ {
+		if strings.Contains(strings.TrimSpace(lines[l-1]), text) {
+			n++
+		}
+	}
+	return n
+}
